@@ -349,3 +349,5 @@ _L8 = H("c17_hash_pinned_len8", "bloom hash dataflow = pinned aHash fallback for
         "all inputs of exactly 8 bytes, both bloom hasher keys", covers=1, timeout=300, stubs=["folded_multiply -> mix_stub"])
 PROPS["C17"]["kani"].append(_L8)
 PROPS["C10"]["kani"].append(_L8)
+PROPS["C11"]["mir"].append(ob("open_flags_positional_c11", "ob_file", "open_flags_positional"))
+PROPS["C07"]["mir"].append(ob("open_flags_positional", "ob_file", "open_flags_positional"))
